@@ -44,6 +44,17 @@ auto make_predicate_matcher(M &m) {
   });
 }
 
+// An element handed out by value (the proxy of std::vector<bool>) does not
+// outlive the loop iteration that produced it: keep a copy instead of a
+// reference.
+template <typename E, typename M,
+          typename = detail::enable_if_t<!std::is_lvalue_reference<M>::value>>
+auto make_predicate_matcher(M &&m) {
+  return std::function<bool(const E &)>([m](const E &value) {
+    return trompeloeil::param_matches(m, std::ref(value));
+  });
+}
+
 template <typename T>
 struct store_as
 {
@@ -273,8 +284,9 @@ struct is_permutation_range_checker {
     const auto e = end(range);
     using element_type = decltype(*it);
     std::vector<std::function<bool(const element_type &)>> matchers;
-    for (const auto& element : elements) {
-      matchers.push_back(impl::make_predicate_matcher<element_type>(element));
+    for (auto&& element : elements) {
+      matchers.push_back(impl::make_predicate_matcher<element_type>(
+        std::forward<decltype(element)>(element)));
     }
     while (it != e) {
       auto found =
@@ -404,9 +416,10 @@ struct includes_range_checker
     const auto e = end(range);
     using element_type = decltype(*it);
     std::vector<std::function<bool(const element_type&)>> matchers;
-    for (auto& element : elements)
+    for (auto&& element : elements)
     {
-      matchers.push_back(make_predicate_matcher<element_type>(element));
+      matchers.push_back(make_predicate_matcher<element_type>(
+        std::forward<decltype(element)>(element)));
     }
     while (it != e)
     {
